@@ -93,6 +93,9 @@ def check_scalar(ctx, case):
     lib_bin, lib_hex, lib_dot = x.bin(), x.hex(), x.bin(frac_dot=True)
     texts = [('lib-bin', '0b' + lib_bin, True, True), ('lib-hex', lib_hex, False, True), ('lib-bin-0b', x.bin(prefix='0b'), True, True),
              ('model-bin', '0b' + M.bin_image(k, w), True, True), ('model-hex', M.hex_image(k, w), False, True)]
+    if 0 < f < w:
+        # the rendering with the binary point, fed back as a raw value: the digits are the code, wherever the point sits
+        texts.append(('lib-bin-dot-raw', '0b' + lib_dot, True, True))
     if w <= 53:
         texts += [('lib-bin-value', '0b' + lib_bin, True, False), ('lib-hex-value', lib_hex, False, False)]
         if 0 < f < w:
@@ -166,6 +169,7 @@ def check_array(ctx, case):
     want_bin0 = nested(['0b' + M.bin_image(k, w) for k in codes], shape)
     import fxpmath
     feeds = [('lib-bin', lib_bin0, lib_bin), ('lib-hex', lib_hex, None), ('model-bin', want_bin0, want_bin), ('model-hex', want_hex, None),
+             ('lib-bin-dot', x.bin(frac_dot=True, prefix='0b'), x.bin(frac_dot=True)),
              # the same texts held by a numpy array of strings (what bin()/hex() of a 2-d object return row by row)
              ('ndarray-bin', np.array(want_bin0), np.array(want_bin)), ('ndarray-hex', np.array(want_hex), None)]
     for tname, text, bare in feeds:
